@@ -35,5 +35,9 @@ func SentinelMiddleware(opts ...Option) iris.Handler {
 
 		defer entry.Exit()
 		c.Next()
+		// An iris handler has no return value: it reports a failure with ctx.SetErr.
+		if err := c.GetErr(); err != nil {
+			sentinel.TraceError(entry, err)
+		}
 	}
 }
